@@ -37,6 +37,16 @@ func c11Leaves() []proc.Expr {
 	for _, v := range []string{"s1", "n1", "b1", "s2", "n2", "match", "matchLength", "cap"} {
 		out = append(out, proc.EVar{Name: v})
 	}
+	// number literals whose digits do not fit a signed 64-bit integer (value 0): just above 2^63, in the
+	// unsigned band, just below and above 2^64, with leading zeros
+	for _, lit := range []string{"9223372036854775808", "9999999999999999999", "18446744073709551615", "18446744073709551616", "0009223372036854775807"} {
+		out = append(out, proc.ERaw{S: lit})
+	}
+	// names that differ from an assigned variable or a built-in only in letter case are other names: never
+	// assigned, hence the empty string
+	for _, v := range []string{"N1", "B1", "matchlength", "MATCH", "Cap"} {
+		out = append(out, proc.EVar{Name: v})
+	}
 	return out
 }
 
@@ -196,7 +206,7 @@ func C11(r *drv.Run) {
 		nrand = 300000
 	}
 	nl := len(c11Leaves())
-	r.Rule = fmt.Sprintf("exhaustive: every unary operator x %d leaves and every binary operator x %d x %d leaves", nl, nl, nl) + " (string/number/bool literals at boundary values '', '0', '7', '12', 'abc', '+3', ' 4', '010', '0x1F', '1_000', '1e3', '3.5', an overflowing digit string, the largest and smallest 64-bit integers as strings and as numbers, 0, 1, 2, -1, 7, 12, true, false, and variables bound by set and by a capture) that the documented table types; plus seeded random well-typed trees of depth <= 3, each rendered with minimal AND with full parentheses (precedence and associativity). Observation: a transform returning the expression (booleans through if/else) and a predicate returning it (match / no match). Oracle: evaluator transcribed from the documentation tables (harness/proc). Non-trivial = every expression whose observed value equalled the expected one is a distinct checked cell; distinct by expression text."
+	r.Rule = fmt.Sprintf("exhaustive: every unary operator x %d leaves and every binary operator x %d x %d leaves", nl, nl, nl) + " (string/number/bool literals at boundary values '', '0', '7', '12', 'abc', '+3', ' 4', '010', '0x1F', '1_000', '1e3', '3.5', an overflowing digit string, the largest and smallest 64-bit integers as strings and as numbers, number literals beyond the signed 64-bit range (value 0), names differing from assigned variables and built-ins only in letter case (unassigned: the empty string), 0, 1, 2, -1, 7, 12, true, false, and variables bound by set and by a capture) that the documented table types; plus seeded random well-typed trees of depth <= 3, each rendered with minimal AND with full parentheses (precedence and associativity). Observation: a transform returning the expression (booleans through if/else) and a predicate returning it (match / no match). Oracle: evaluator transcribed from the documentation tables (harness/proc). Non-trivial = every expression whose observed value equalled the expected one is a distinct checked cell; distinct by expression text."
 	r.Assumptions = []string{
 		"division and modulo by zero are not generated (no documented result; see known finding K1 under C09)",
 		"left open by the documentation and always parenthesised explicitly: unary operators over binary operands, ==/!= mixed with </>/<=/>= in one chain",
